@@ -21,7 +21,7 @@ pub fn meta() -> PropMeta {
     PropMeta {
         id: "C08",
         level: "exploration",
-        rule: "a real Sender (initial-delivery-count incl. values near 2^32, small peer frame size so deliveries span frames) talks to a scripted receiver that executes a generated history step-wise: grants (delivery-count known / lagging by k / unset on the first flow, link-credit 0..), reductions to zero, drain on/off, echo requests, interleaved with queued send attempts; a schedule hook (cfg fe2o3_amqp_verif) can park a sender whose credit check just failed until the session task has applied the peer's next grant, so the grant lands between the check and the start of the wait. Oracle (peer-side model, serial arithmetic, frames processed in stream order): a delivery starts only while delivery-count_snd < delivery-count_rcv+link-credit_rcv of the last flow; one credit per delivery whatever its frame count; every flow from the sender reports delivery-count = initial + deliveries started (+ drained credit) and link-credit = limit - that; a drain is answered by a flow with credit 0 and delivery-count = limit and nothing is sent until a new grant; after every step the deliveries started equal min(queued sends, credit) — a send waiting for credit has produced its transfer by the quiescent point following a sufficient grant (a lost wake-up is a deterministic stall). Non-trivial: a send was blocked at least once, or drain, or counts crossed 2^32; distinct by hash of the case.",
+        rule: "a real Sender (initial-delivery-count incl. values near 2^32, small peer frame size so deliveries span frames) talks to a scripted receiver that executes a generated history step-wise: grants (delivery-count known / lagging by k / unset at any point, link-credit 0..), reductions to zero, drain on/off, echo requests, interleaved with queued send attempts; a schedule hook (cfg fe2o3_amqp_verif) can park a sender whose credit check just failed until the session task has applied the peer's next grant, so the grant lands between the check and the start of the wait. Oracle (peer-side model, serial arithmetic, frames processed in stream order): a delivery starts only while delivery-count_snd < delivery-count_rcv+link-credit_rcv of the last flow; one credit per delivery whatever its frame count; every flow from the sender reports delivery-count = initial + deliveries started (+ drained credit) and link-credit = limit - that; a drain is answered by a flow with credit 0 and delivery-count = limit and nothing is sent until a new grant; after every step the deliveries started equal min(queued sends, credit) — a send waiting for credit has produced its transfer by the quiescent point following a sufficient grant (a lost wake-up is a deterministic stall). Non-trivial: a send was blocked at least once, or drain, or counts crossed 2^32; distinct by hash of the case.",
         assumptions: &[
             "single-threaded runtime: the check/notify/wait race is reproduced through the schedule point, not by real parallelism",
             "step-wise execution makes the receiver's 'latest flow' unambiguous",
@@ -62,7 +62,7 @@ fn op() -> BoxedStrategy<Op> {
         5 => (prop_oneof![Just(0u16), 1u16..400, 400u16..3000], prop::bool::weighted(0.4)).prop_map(|(len, park)| Op::Send { len, park }),
         5 => (
             prop_oneof![3 => Just(0u32), 3 => Just(1u32), 3 => 2u32..6, 1 => Just(100u32)],
-            prop_oneof![5 => Just(DcMode::Known), 2 => (1u8..4).prop_map(DcMode::Lagging), 1 => Just(DcMode::Unset)],
+            prop_oneof![5 => Just(DcMode::Known), 2 => (1u8..4).prop_map(DcMode::Lagging), 2 => Just(DcMode::Unset)],
             prop::bool::weighted(0.2),
             any::<bool>()
         )
@@ -288,13 +288,9 @@ pub async fn run_async(c: &Case) -> Result<Info, String> {
                 let dc_off = match dc {
                     DcMode::Known => Some(dc_snd),
                     DcMode::Lagging(k) => Some(dc_snd - (*k as u64).min(dc_snd)),
-                    DcMode::Unset => {
-                        if first_flow {
-                            None
-                        } else {
-                            Some(dc_snd)
-                        }
-                    }
+                    // unset delivery-count: the sender's initial delivery-count is what counts (spec 2.7.6),
+                    // at any point of the history
+                    DcMode::Unset => None,
                 };
                 first_flow = false;
                 limit = dc_off.unwrap_or(0) + *credit as u64;
